@@ -16,7 +16,9 @@ Spec (all ints are reduced modulo the number of options):
     inds     1-6 individuals: gap, t0, c0, recs = 1-12 records
     rec      dt (time increment index, 0 = tie with previous record), k (0 observation, 1 dose,
              2 other event EVID=2, 3 reset EVID=3, 4 reset+dose EVID=4, 5 missing observation
-             MDV=1), amt, dv, route, addl, ii, ss, rate, cov, dvid
+             MDV=1), amt, dv, route, addl, ii, ss, rate, cov, dvid,
+             na (bit mask of missing values (NaN) in this record: 1 first covariate, 2 second covariate,
+             4 DV of a record that is not an observation; absent = 0 = nothing missing)
 """
 
 from __future__ import annotations
@@ -33,6 +35,7 @@ MODELINFO = {
     'ivoral': dict(dosing=[dict(cmt=1, admid=1), dict(cmt=2, admid=2)], central=2),
 }
 COVS = ['WGT', 'AGE']
+NAN = float('nan')
 
 REC = st.fixed_dictionaries(
     dict(
@@ -47,6 +50,7 @@ REC = st.fixed_dictionaries(
         rate=st.integers(0, 2),
         cov=st.integers(0, 3),
         dvid=st.integers(0, 1),
+        na=st.sampled_from([0, 0, 0, 0, 0, 0, 0, 0, 1, 2, 3, 4, 5]),
     )
 )
 IND = st.fixed_dictionaries(
@@ -91,6 +95,8 @@ class Table:
 
 
 def _fmt(v):
+    if isinstance(v, float) and v != v:
+        return 'nan'
     if isinstance(v, float) and v == int(v):
         return str(int(v)) + '.'
     return str(v)
@@ -196,7 +202,8 @@ def build(spec) -> Table:
                 rec['II'] = IIS[_int(_get(r, 'ii')) % len(IIS)] if (ss > 0 or addl > 0) else 0.0
             if has['addl']:
                 rec['ADDL'] = flag(addl)
-            rec['DV'] = 0.5 * (_int(_get(r, 'dv')) % 10) if k == 0 else 0.0
+            na = _int(_get(r, 'na')) % 8
+            rec['DV'] = 0.5 * (_int(_get(r, 'dv')) % 10) if k == 0 else (NAN if na & 4 else 0.0)
             if has['mdv']:
                 rec['MDV'] = flag(0 if k == 0 else 1)
             if has['evid']:
@@ -209,7 +216,7 @@ def build(spec) -> Table:
                 rec['DVID'] = flag(1 + _int(_get(r, 'dvid')) % 2)
             for j, c in enumerate(covs):
                 base = 50.0 + 5.0 * ((c0 + j) % 6)
-                rec[c] = base + (float(_int(_get(r, 'cov')) % 4) if tv[j] else 0.0)
+                rec[c] = NAN if na & (1 << j) else base + (float(_int(_get(r, 'cov')) % 4) if tv[j] else 0.0)
             rec['ROW'] = float(len(records))
             records.append(rec)
 
